@@ -5,8 +5,11 @@ From QCE Require Import Base.Prelude Core.Model Core.Run.
 From Gen Require Import Ident Classes.
 Open Scope Z_scope.
 
-Definition case := Core.Run.case.
-Definition agree (c : case) : bool := agree_core c.
+(* KCore: a build program with its observations, tied to the model.  KBlock: a circuit built through the structure-level API with a
+   sub-circuit that carries an EXPLICIT relation (not expressible as a build program of the model): judged by the specification
+   on the reported numbers alone -- listing first, and durations first. *)
+Inductive case := KCore (c : Core.Run.case) | KBlock (o1 o2 : option obs).
+Definition agree (c : case) : bool := match c with KCore x => agree_core x | KBlock _ _ => true end.
 
 Definition zmax_list (d : Z) (l : list Z) : Z := match l with [] => d | x :: t => fold_left Z.max t x end.
 Definition zmin_l (d : Z) (l : list Z) : Z := match l with [] => d | x :: t => fold_left Z.min t x end.
@@ -25,5 +28,9 @@ Definition comp_ok (x : ocomp) : bool :=
 Definition obs_ok (ob : option obs) : bool :=
   match ob with None => true | Some o => span_ok o && forallb comp_ok (o_comps o) end.
 
-Definition spec_ok (c : case) : bool :=
-  obs_ok (c_plain c) && obs_ok (c_plain_dur_first c) && obs_ok (c_unrolled c) && obs_ok (c_unrolled_dur_first c).
+Definition observed (ob : option obs) : bool := match ob with Some _ => true | None => false end.
+Definition spec_ok (cs : case) : bool :=
+  match cs with
+  | KCore c => obs_ok (c_plain c) && obs_ok (c_plain_dur_first c) && obs_ok (c_unrolled c) && obs_ok (c_unrolled_dur_first c)
+  | KBlock o1 o2 => observed o1 && observed o2 && obs_ok o1 && obs_ok o2
+  end.
